@@ -204,7 +204,7 @@ PROPS = {
         "assumptions": [],
     },
     "C16": {
-        "lean_modules": ["StimModel.Props.C16", "StimModel.Props.C08", "StimModel.Props.Fourier"],
+        "lean_modules": ["StimModel.Props.C16", "StimModel.Props.C16b", "StimModel.Props.C08", "StimModel.Props.Fourier"],
         "builds": ["asan"],
         "areas": [
             {"area": "demsample", "n": {"quick": 300, "thorough": 6000}, "builds": ["asan"], "replayable": True},
